@@ -29,12 +29,12 @@ func (tempErr) Timeout() bool   { return true }
 type TapeRead struct{ Off, Len int }
 
 type Tape struct {
-	rng    *core.RNG
-	Out    []byte     // everything handed out so far
-	Reads  []TapeRead // every Read call
-	FailAt int        // read index at which to fail (-1 never)
-	MaxRead int       // >0: a Read call hands out at most this many bytes (short reads without an error are legal for an io.Reader)
-	Yield  func(what string)
+	rng     *core.RNG
+	Out     []byte     // everything handed out so far
+	Reads   []TapeRead // every Read call
+	FailAt  int        // read index at which to fail (-1 never)
+	MaxRead int        // >0: a Read call hands out at most this many bytes (short reads without an error are legal for an io.Reader)
+	Yield   func(what string)
 	// Passthrough records the real CSPRNG instead of generating.
 	Passthrough io.Reader
 }
@@ -166,8 +166,8 @@ func (d Delivery) String() string {
 // SrcFault: at byte offset At the source returns (K bytes, error).
 type SrcFault struct {
 	At   int    `json:"at"`
-	K    int    `json:"k"`    // bytes delivered together with the error
-	Mode string `json:"mode"` // "sticky", "once-data", "once-eof"
+	K    int    `json:"k"`              // bytes delivered together with the error
+	Mode string `json:"mode"`           // "sticky", "once-data", "once-eof"
 	Temp bool   `json:"temp,omitempty"` // the error says Temporary() == true
 }
 
